@@ -3,5 +3,6 @@ CONSTANTS
   Keys = {"k1", "k2"}
   Payloads = {"p", "q"}
   MaxSteps = 5
+VIEW view
 INVARIANTS RoundTrip Isolation NoClobber ErrorsReported RetrieveExact
 CHECK_DEADLOCK FALSE
